@@ -3,7 +3,7 @@
    gives the byte-level clauses of C07, C08 and C11.  Statements only; proofs in
    Proofs/LexerProofs.v. *)
 From XSG.Model Require Import Strings Necessity Element Parser Dom Lexer.
-From XSG.Proofs Require Import ElementProofs ParserFaults ParserTotal SkelProofs LexerProofs LexerC11.
+From XSG.Proofs Require Import ElementProofs ParserFaults ParserTotal SkelProofs LexerProofs LexerC11 LexerEmpty LexerMisc.
 From Coq Require Import String.
 
 (* the default-configured reader never delivers an end tag that closes nothing: for EVERY byte
@@ -106,8 +106,84 @@ Example C11_bytes_example_comment_place :
                /\ into_struct_ev (lex_from lex_init (s "<a x='1'><b/>" ++ s "t<b/></a>")) = Ok e.
 Proof. exact example_comment_place. Qed.
 
-(* `<n/>` against `<n></n>` (n a name without white space, quotes, `>`, `/`, and not starting with
-   `!`, `?`, `/`): EEmpty against EStart, EEnd with the same name and no attributes *)
+(* The same for ANY piece of bytes that the lexer, where character data may stand, turns into one
+   EMisc event and that leaves it where it was (`misc_piece`), with the instances the property names:
+   comments, processing instructions and the XML declaration (`<?` c `?>`, c without `>`), a DOCTYPE
+   without internal subset (`<!DOCTYPE ` c `>`, c without `<` `>` and not blank) *)
+Theorem C11_bytes_misc_irrelevant : forall a m b,
+  misc_piece m ->
+  md (fst (lex_run lex_init a)) = MText [] ->
+  no_reader_error (lex_from lex_init (a ++ b)) = true ->
+  into_struct_ev (lex_from lex_init (a ++ m ++ b)) = into_struct_ev (lex_from lex_init (a ++ b)).
+Proof. exact bytes_misc_irrelevant. Qed.
+Theorem C11_bytes_misc_irrelevant_extend : forall root a m b,
+  misc_piece m ->
+  md (fst (lex_run lex_init a)) = MText [] ->
+  no_reader_error (lex_from lex_init (a ++ b)) = true ->
+  extend_struct_ev root (lex_from lex_init (a ++ m ++ b)) = extend_struct_ev root (lex_from lex_init (a ++ b)).
+Proof. exact bytes_misc_irrelevant_extend. Qed.
+Theorem C11_bytes_piece_comment : forall c,
+  forallb (fun b => negb (b =? B_gt)) c = true -> misc_piece (lit "<!--" ++ c ++ lit "-->").
+Proof. exact misc_piece_comment. Qed.
+Theorem C11_bytes_piece_pi : forall c,
+  forallb (fun b => negb (b =? B_gt)) c = true -> misc_piece (lit "<?" ++ c ++ lit "?>").
+Proof. exact misc_piece_pi. Qed.
+Theorem C11_bytes_piece_doctype : forall c,
+  no_angle c = true -> drop_ws c <> [] -> misc_piece (B_lt :: doctype_head ++ 32 :: c ++ [B_gt]).
+Proof. exact misc_piece_doctype. Qed.
+Example C11_bytes_example_pieces :
+  misc_piece (s "<?xml version='1.0' encoding='UTF-8'?>") /\ misc_piece (s "<!-- a - b -- c -->")
+  /\ misc_piece (s "<?php echo 1; ?>").
+Proof. exact example_misc_pieces. Qed.
+Example C11_bytes_example_doctype :
+  misc_piece (s "<!DOCTYPE html PUBLIC ""-//W3C//DTD XHTML 1.0//EN"" ""x.dtd"">").
+Proof. exact example_doctype_piece. Qed.
+
+(* C08: a syntax error is returned with the reader's error kind and byte position, and nothing
+   before it in the stream is a fault - for every byte string *)
+Theorem C08_bytes_position : forall bs p id,
+  first_fault (lex bs) = Some (QuickXmlError p id) ->
+  into_struct_bytes bs = Err (QuickXmlError p id)
+  /\ exists pre post, lex bs = pre ++ EErr p id :: post /\ first_fault pre = None.
+Proof. exact bytes_position. Qed.
+
+(* `<n/>` against `<n></n>` for a plain name n (non-empty; no blank, quote, `>`, `/`; not starting
+   with `!` or `?`), written where character data may stand: the lexer delivers EEmpty against
+   EStart, EEnd with the same decoded name and no attributes and ends in the same state ... *)
+Theorem C11_bytes_empty_tag : forall n p op,
+  plain_name n = true ->
+  lex_run (st (MText []) p op) (empty_tag n) =
+  (st (MText []) (p + N.of_nat (List.length n) + 3) op, [EEmpty (dec_str n) []]).
+Proof. exact run_empty_tag. Qed.
+Theorem C11_bytes_pair_tag : forall n p op,
+  plain_name n = true ->
+  lex_run (st (MText []) p op) (pair_tag n) =
+  (st (MText []) (p + 2 * N.of_nat (List.length n) + 5) op, [EStart (dec_str n) []; EEnd]).
+Proof. exact run_pair_tag. Qed.
+(* ... and end to end: for every prefix a that ends where character data may stand and every suffix
+   b such that the document with `<n/>` has no reader error, the two spellings give the same parse
+   and the same extension of any duplicate-free tree *)
+Theorem C11_bytes_empty_vs_pair : forall a n b,
+  plain_name n = true ->
+  md (fst (lex_run lex_init a)) = MText [] ->
+  no_reader_error (lex_from lex_init (a ++ empty_tag n ++ b)) = true ->
+  into_struct_ev (lex_from lex_init (a ++ pair_tag n ++ b))
+  = into_struct_ev (lex_from lex_init (a ++ empty_tag n ++ b)).
+Proof. exact bytes_empty_vs_pair. Qed.
+Theorem C11_bytes_empty_vs_pair_extend : forall root a n b,
+  Uniq root ->
+  plain_name n = true ->
+  md (fst (lex_run lex_init a)) = MText [] ->
+  no_reader_error (lex_from lex_init (a ++ empty_tag n ++ b)) = true ->
+  extend_struct_ev root (lex_from lex_init (a ++ pair_tag n ++ b))
+  = extend_struct_ev root (lex_from lex_init (a ++ empty_tag n ++ b)).
+Proof. exact bytes_empty_vs_pair_extend. Qed.
+Example C11_bytes_example_empty_place :
+  plain_name (s "ns:b-1") = true
+  /\ md (fst (lex_run lex_init (s "<a x='1'>"))) = MText []
+  /\ no_reader_error (lex_from lex_init (s "<a x='1'>" ++ empty_tag (s "ns:b-1") ++ s "</a>")) = true
+  /\ exists e, into_struct_ev (lex_from lex_init (s "<a x='1'>" ++ pair_tag (s "ns:b-1") ++ s "</a>")) = Ok e.
+Proof. exact example_empty_place. Qed.
 Example LEX_example_empty_vs_pair :
   lex (s "<a><b/></a>") = [EStart (ROk (s "a")) []; EEmpty (ROk (s "b")) []; EEnd]
   /\ lex (s "<a><b></b></a>") = [EStart (ROk (s "a")) []; EStart (ROk (s "b")) []; EEnd; EEnd]
@@ -159,3 +235,16 @@ Print Assumptions LEX_offset_only_in_errors.
 Print Assumptions C11_bytes_comment_irrelevant.
 Print Assumptions C11_bytes_comment_irrelevant_extend.
 Print Assumptions C11_bytes_example_comment_place.
+Print Assumptions C11_bytes_empty_tag.
+Print Assumptions C11_bytes_pair_tag.
+Print Assumptions C11_bytes_empty_vs_pair.
+Print Assumptions C11_bytes_empty_vs_pair_extend.
+Print Assumptions C11_bytes_example_empty_place.
+Print Assumptions C11_bytes_misc_irrelevant.
+Print Assumptions C11_bytes_misc_irrelevant_extend.
+Print Assumptions C11_bytes_piece_comment.
+Print Assumptions C11_bytes_piece_pi.
+Print Assumptions C11_bytes_piece_doctype.
+Print Assumptions C11_bytes_example_pieces.
+Print Assumptions C11_bytes_example_doctype.
+Print Assumptions C08_bytes_position.
